@@ -589,6 +589,22 @@ def mktrace(o, api, obs, text, events):
         t['canon'] = True
         t['ctoks'] = canon_lex(text)
         t['cevents'] = cevents_of(events)
+        if api != 'emit':
+            # dump_all / serialize_all: the anchor NAMES are the library's choice (the reference events come from the pure-Python
+            # serializer, the text possibly from LibYAML's): both sides are compared up to a renaming of the anchors of each
+            # document, in order of first appearance.  emit(): the caller's names must be written as given.
+            names = {}
+            for x in t['ctoks']:
+                if x[0] == 'DS':
+                    names = {}
+                elif x[0] in ('ANCHOR', 'ALIAS'):
+                    x[1] = names.setdefault(x[1], 'n%d' % (len(names) + 1))
+            names = {}
+            for x in t['cevents']:
+                if x[0] == 'DocumentStart':
+                    names = {}
+                elif x[1]:
+                    x[1] = names.setdefault(x[1], 'n%d' % (len(names) + 1))
     return t
 
 
